@@ -61,3 +61,27 @@ Proof.
 Qed.
 
 End Acts.
+
+(* the real stages are not gated: no goroutine is ever parked inside a user function by the harness *)
+Definition not_call (ctl : wctl) : Prop := match ctl with WCall _ _ => False | _ => True end.
+
+Theorem gated_never (c : cfg) : gated c = false -> forall s, reachable c s -> forall w, not_call (wc (ws s w)).
+Proof.
+  intros Hg. apply (reachable_inv c (fun s => forall w, not_call (wc (ws s w)))).
+  - intros w. unfold init, init_worker. simpl. destruct (pre c w (l0 c w)); exact I.
+  - intros s e s' HS Hs. destruct (step_effect c s e s' Hs) as [_ He].
+    assert (Hother : forall w0 x, not_call (wc x) -> forall w, not_call (wc (upd (ws s) w0 x w))).
+    { intros w0 x Hx w. destruct (Nat.eq_dec w w0) as [->|Hne]; upd_simpl; auto. }
+    assert (Htake : forall w a, not_call (wc (take c s w a))).
+    { intros w a. unfold take. destruct (plan c w (wl (ws s w)) a). rewrite Hg. exact I. }
+    destruct He as [i x Hi Hcl | i Hi Hcl | k t v rest Hb | k v w eof a rest Hb Hcap Hcl Hw Hc Hs0 | | | w s'' Hw He
+                   | w a todo Hw Hc | Hcl Had Hcd | t Ht]; simpl; auto.
+    + apply Hother. exact I.
+    + destruct He as [i a t rest Hsrc Hc Hb | Hsrc Hc | i Hsrc Hc Hb Hcl | ctl' Hcn Hdue Hsl Hsls
+                     | eof a k0 v rest Hc Hs0 Hcl | eof k0 t r rest Hc Hb | dropped Hp Hnd Hnr Hnc Hwhy | eof a k0 v rest Hc Hs0 Hcl];
+        simpl; auto; try (apply Hother; auto; exact I).
+      * apply Hother. simpl. destruct Hcn; exact I.
+      * intros w0. unfold finish. destruct (closer c); [|rewrite close_all_ws']; simpl; apply Hother; exact I.
+    + apply Hother. exact I.
+    + intros w0. rewrite close_all_ws'. apply HS.
+Qed.
